@@ -68,14 +68,16 @@ Definition chk_announce (cfg : config) (keys : list (bytes * Z)) (now : Z) (ih :
            (o : Z) (o_msg : bytes) : Z * Z :=
   match param with
   | None =>
-    (if o =? 0 then 10                                        (* an announce without a jwt passed *)
+    (if o =? 4 then 14
+     else if o =? 0 then 10                                   (* an announce without a jwt passed *)
      else if is_err o o_msg ErrMissingJWT then 0 else 111, 20)
   | Some v =>
     let t := tok_of v in
     let r := validate_jwt cfg keys now ih t in
     let a_lo := jwt_accept cfg keys (now - slack) ih t in
     let a_hi := jwt_accept cfg keys (now + slack) ih t in
-    (if negb (Bool.eqb a_lo a_hi) then 0                       (* at a validity cutoff: either verdict *)
+    (if o =? 4 then 14                                         (* the hook PANICKED on this token (no verdict at all) *)
+     else if negb (Bool.eqb a_lo a_hi) then 0                  (* at a validity cutoff: either verdict *)
      else if o =? 0 then clause_of r                           (* passed: must be acceptable *)
      else match r with
           | None => 9                                          (* a valid token was rejected *)
